@@ -217,6 +217,25 @@ def lengthref_examples():
     assert len(L.UNITS) == 14
 
 
+@check
+def colorref_examples():
+    from .ref import colorref as C
+
+    assert len(C.KEYWORDS) == 147, len(C.KEYWORDS)
+    for k, v in C.BASIC.items():
+        assert C.KEYWORDS[k] == v, k
+    # grey/gray pairs are identical, aqua/cyan and fuchsia/magenta too
+    for k in list(C.KEYWORDS):
+        if "grey" in k:
+            assert C.KEYWORDS[k] == C.KEYWORDS[k.replace("grey", "gray")], k
+    assert C.KEYWORDS["aqua"] == C.KEYWORDS["cyan"] and C.KEYWORDS["fuchsia"] == C.KEYWORDS["magenta"]
+    assert C.KEYWORDS["aliceblue"] == 0xF0F8FF and C.KEYWORDS["rebeccapurple" if False else "indigo"] == 0x4B0082
+    # CSS 3 colour examples: hsl(120,100%,50%) is lime, hsl(120,100%,25%) is dark green #008000, hsl(0,100%,50%) red
+    assert near(C.hsl(120, 100, 50), (0, 255, 0)) and near(C.hsl(120, 100, 25), (0, 127.5, 0)) and near(C.hsl(0, 100, 50), (255, 0, 0))
+    assert near(C.hsl(480, 100, 50), (0, 255, 0)) and near(C.hsl(-240, 100, 50), (0, 255, 0)) and near(C.hsl(30, -5, 40), (102, 102, 102))
+    assert C.rgb_int(300, -5, 7) == (255, 0, 7) and near(C.rgb_percent(110, -5, 50), (255, 0, 127.5)) and C.alpha(1.5) == 255 and C.alpha(-1) == 0
+
+
 def main():
     failed = 0
     for f in CHECKS:
